@@ -31,6 +31,7 @@ type Exec struct {
 	eofErr, ueofErr *Iface
 	flagOverride    map[string]Value
 	snaps           []snapRec
+	checkpoints     []*FNode
 	extUsed         map[string]bool
 	hexOf           map[*Term]*Term
 	stdInit         map[*ssa.Package]bool
